@@ -590,3 +590,52 @@ func exprOf(hd *core.DeclSite, lp collLoop) ast.Expr {
 	}
 	return nil
 }
+
+// gluedRule: an annotation or comment glued to the value starts the same way in both modes.
+func gluedRule(R string) RuleFunc {
+	return func(c *core.Ctx) {
+		c.Rule(R, "per-byte summary of the schema scanner's stateEndTop: what happens on `/` - and, outside an inline annotation, on `#` - does not depend on the length-computing mode, on the depth of the lexeme stack or on trailing characters seen: no path of those rows tests lengthComputing, stack.Len() or hasTrailingCharacters. A root scalar followed without a blank by its annotation (`1/* {min: 0} */`, `\"abc\"// note`) otherwise scans differently under Len() than under Check(): Len() returns the bare scalar (the prefix has another AST) or fails")
+		c.Floor(R, 2)
+		m := buildScanModel(c, "notations/jschema/scanner")
+		rows, ok := m.rows["stateEndTop"]
+		if !ok {
+			c.Unresolved(R, "notations/jschema/scanner.stateEndTop")
+			return
+		}
+		pos := c.P.Pos(m.states["stateEndTop"].Pos())
+		modal := func(k string) bool {
+			return strings.Contains(k, "load:&s.lengthComputing") || strings.Contains(k, "load:&s.hasTrailingCharacters") || (strings.Contains(k, "Stack[") && strings.Contains(k, ").Len"))
+		}
+		for _, b := range []byte{'/', '#'} {
+			bad := ""
+			n := 0
+			for _, p := range rows[b].paths {
+				// `#` inside an inline annotation (annotation mode neither none nor multi-line) ends the measurement by mode: not this rule's business
+				if b == '#' {
+					inl := false
+					for _, a := range p.atoms {
+						k := a.Cond.Key()
+						if (k == "bin:==(0,load:&s.annotation)" || k == "bin:==(1,load:&s.annotation)") && a.Truth {
+							inl = true
+						}
+					}
+					if !inl {
+						continue
+					}
+				}
+				n++
+				for _, a := range p.atoms {
+					if modal(a.Cond.Key()) && bad == "" {
+						bad = "a path of this row is guarded by `" + a.String() + "`"
+					}
+				}
+			}
+			key := core.F("stateEndTop:%q", rune(b))
+			if n == 0 {
+				c.Bad(R, key, pos, core.F("stateEndTop on %q", rune(b)), "undecided: no path of this row was summarised")
+				continue
+			}
+			c.Check(bad == "", R, key, pos, core.F("stateEndTop on %q starts the annotation / comment whatever the mode (%d paths)", rune(b), n), bad+": the glued annotation or comment is handled differently when the length is computed")
+		}
+	}
+}
